@@ -421,14 +421,17 @@ impl RowIdSequence {
                     let mut holes_passed = 0;
                     ranges.extend(GroupingIterator::new(unsafe { ids.into_addr_iter() }.map(
                         |addr| {
-                            let offset_no_holes = addr - range.start + offset_start;
+                            // The bitmap cursor counts positions within this segment, so the
+                            // position of the id must be segment-relative as well; the offset
+                            // of the segment within the sequence is added at the end.
+                            let offset_no_holes = addr - range.start;
                             while bitmap_iter_pos < offset_no_holes {
                                 if !bitmap_iter.next().unwrap() {
                                     holes_passed += 1;
                                 }
                                 bitmap_iter_pos += 1;
                             }
-                            offset_no_holes - holes_passed
+                            offset_no_holes - holes_passed + offset_start
                         },
                     )));
                 }
